@@ -234,6 +234,7 @@ def gen_envs(argspecs, seed=0, limit=2600):
             break
 
 
+GUARD_FCMP = [True]      # float thresholds among the guard-constant probes: quick tier only (see DESIGN 11.16)
 BDD_NODES = [250000]    # node budget of the ROBDD comparison per lane form (the thorough tier raises it)
 DAZ_MODE = [False]      # also evaluate under MXCSR.DAZ (set by rules whose specification is not a float operation: masks)
 EXTRA_UNIFORM = [False]   # rule-specific points are used as uniform vectors (one of the operands is a scalar)
@@ -439,7 +440,7 @@ def _guard_envs(forms, argspecs, limit=240):
             a, b = x[3], x[4]
             if a[0] == "const":
                 a, b = b, a
-            if b[0] == "const" and a[0] != "const" and a[1] >= 4 and (x[0] == "icmp" or b[2] != 0):
+            if b[0] == "const" and a[0] != "const" and a[1] >= 4 and (x[0] == "icmp" or (b[2] != 0 and GUARD_FCMP[0])):
                 guards.append((a, b[2]))
         stack.extend(y for y in x[2:] if isinstance(y, tuple))
     if not guards:
